@@ -101,6 +101,14 @@ func registerK8sIntrinsics(e *Engine) {
 	e.reg("(*k8s.io/apimachinery/pkg/runtime.Scheme).Recognizes", func(fr *frame, args []value) value {
 		return true
 	})
+	// labels.NewRequirement validates key/values with regular expressions; the model builds the requirement directly
+	// (valid keys and values assumed).
+	e.reg("k8s.io/apimachinery/pkg/labels.NewRequirement", func(fr *frame, args []value) value {
+		t := fr.i.namedType("k8s.io/apimachinery/pkg/labels", "Requirement")
+		var cell value = structure{args[0], args[1], args[2]}
+		_ = t
+		return tuple{&cell, iface{}}
+	})
 	e.reg("k8s.io/client-go/util/csaupgrade.UpgradeManagedFieldsPatch", func(fr *frame, args []value) value {
 		return tuple{[]value(nil), iface{}}
 	})
